@@ -150,7 +150,7 @@ static void fill_operands(Rng &r, Op &o, unsigned bias, bool streams) {
         case 'K': *slot[i] = draw_code(r); break;
         case 'c': *slot[i] = r.below(95); break;
         case 'u': *slot[i] = draw_cp(r); break;
-        case 'f': *slot[i] = r.below(1 << 16); break;
+        case 'f': *slot[i] = r.below(1 << 18); break;
         case 'm': *slot[i] = r.below(3); break;
         case 'i': *slot[i] = r.below(64); break;
         default: *slot[i] = 0; break;
